@@ -186,8 +186,24 @@ Example C09_ex_roundtrip :
 Proof. vm_compute. reflexivity. Qed.
 
 (* the hypothesis "at least one edge" cannot be dropped: with no edge the last header line is taken for an
-   edge line (the loop variable of the header loop keeps its last value) and parsing raises ValueError *)
-Example C09_no_edge_is_refused :
-  wmd_parse N read_N false false (meta0 (lit "wmd"))
-            (readlines (wmd_write N show_N (mkW ex_meta 0 [(1, []); (2, [])] []))) = Err ValueErr.
-Proof. vm_compute. reflexivity. Qed.
+   edge line (the loop variable of the header loop keeps its last value) and parsing raises ValueError.
+   The witness satisfies every other clause of wf_core. *)
+Definition ex_noedge : winst N := mkW ex_meta 0 [(1, []); (2, [])] [].
+
+Theorem C09_needs_an_edge : exists i : winst N,
+  (data_type (w_meta i) = lit "wmd" /\ wf_fields (w_meta i) /\ wf_names (alt_names (w_meta i)) /\
+   wf_nmap (w_nodes i) /\ wf_weights N i /\ w_num_edges i = N.of_nat (List.length (all_edges (w_nodes i)))) /\
+  all_edges (w_nodes i) = [] /\
+  wmd_parse N read_N false false (meta0 (lit "wmd")) (readlines (wmd_write N show_N i)) = Err ValueErr.
+Proof.
+  exists ex_noedge. split; [|split; [reflexivity|vm_compute; reflexivity]].
+  destruct C09_ex_wf as (H1 & H2 & H3 & _). unfold ex_noedge. cbn [w_meta w_nodes w_weights w_num_edges] in *.
+  split; [exact H1|]. split; [exact H2|]. split; [exact H3|]. split.
+  { split; [repeat constructor; cbn; intuition discriminate|]. split.
+    - intros n. unfold nbrs. cbn. destruct (N.eqb n 1); [constructor|]. destruct (N.eqb n 2); constructor.
+    - intros n m. unfold nbrs. cbn. destruct (N.eqb n 1); [cbn; intuition|]. destruct (N.eqb n 2); cbn; intuition. }
+  split; [|reflexivity].
+  split; [constructor|]. intros n m. unfold nbrs. cbn. split; [intros []|].
+  destruct (N.eqb n 1); [cbn; intuition|]. destruct (N.eqb n 2); cbn; intuition.
+Qed.
+Print Assumptions C09_needs_an_edge.
